@@ -605,4 +605,71 @@ Proof.
       * apply pqf_q_clean. exact Hurest.
 Qed.
 
+
+Lemma cred_nil_colon w : is_nil w = false -> cr_user w = [] -> cr_pass w = [] -> w = [58].
+Proof.
+  destruct w as [|c r]; [discriminate|]. intros _. cbn [cr_user cr_pass]. destruct (c =? 58) eqn:E; [|discriminate].
+  intros _ ->. apply N.eqb_eq in E. subst c. reflexivity.
+Qed.
+
+Lemma cred_text_nil un pw : is_nil (cred_text un pw) = is_nil un && is_nil pw.
+Proof. unfold cred_text. destruct un; destruct pw; reflexivity. Qed.
+
+(* the text l after "scheme://" *)
+Theorem model_auth sch l : usv_list l -> scheme_canon sch = true -> scheme_type_of sch = STNotSpecial ->
+  let T := ntnl l in
+  list_eqb (a_part T) [58; 64] = false -> auth_port_bslash T = false ->
+  (match auth_path_text T with c :: r => if c =? 47 then spath_ok r [] [] = true else True | [] => True end) ->
+  host_agree hpo hd shp shs (auth_host_text T) ->
+  match sauth shp sch T with
+  | None => mfail (after_double_slash dbg hp hpo hd ovr CUrlParser STNotSpecial (nlen sch) (sch ++ [58]) l)
+  | Some su =>
+      exists u, oob (U32_MAX_P < nlen (ser u))
+                    (after_double_slash dbg hp hpo hd ovr CUrlParser STNotSpecial (nlen sch) (sch ++ [58]) l) u
+                /\ related dbg shs u su
+  end.
+Proof.
+  intros Hu Hcan Hns T Ha Hb Hc HA. unfold auth_port_bslash, auth_path_text, auth_host_text in *.
+  unfold sauth. pose proof (parse_userinfo_spec (auth_s0 sch) l Hu) as PU. fold T in PU.
+  pose proof (a_part_no_ae T) as Hnae.
+  unfold after_at in *. destruct (last_at (a_part T)) as [[w h]|] eqn:Ela; cbn [fst snd] in *.
+  - set (HR := h ++ a_rest T) in *.
+    assert (match port_split (hs_rest false HR) with
+            | Some PR => ((decimal_value (digits_of PR) <=? 65535) && starts_with_cp 92 (after_digits PR)) = false
+            | None => True end) as Hbs by (destruct (port_split (hs_rest false HR)); [exact Hb | exact I]).
+    cbn [opt_is_some andb].
+    destruct (is_nil w && starts_ae HR) eqn:E1.
+    + apply andb_true_iff in E1. destruct E1 as [_ E2]. rewrite E2.
+      unfold after_double_slash. change ((sch ++ [58]) ++ [47; 47]) with (auth_s0 sch). rewrite PU. exists EmptyHost. reflexivity.
+    + destruct PU as (rem & Hrem & Hurem & HPU).
+      set (un := encU (cr_user w)) in *. set (pw := encU (cr_pass w)) in *.
+      pose proof (model_auth_cont sch l un pw rem HR Hu Hcan Hns HPU Hrem Hurem HA Hbs Hc) as C. cbv zeta in C.
+      assert (cred_of (Some w) (set_scheme empty_url sch) = mkSUrl sch un pw None None (SPList []) None None) as ->.
+      { cbn [cred_of]. rewrite ac_false. unfold un, pw. rewrite !encU_upe. reflexivity. }
+      destruct (starts_ae HR) eqn:Eae.
+      * rewrite andb_true_r in E1, C.
+        assert (negb (is_nil (cred_text un pw)) = true) as Ene.
+        { rewrite cred_text_nil. unfold un, pw. rewrite !encU_nil_iff.
+          destruct (is_nil (cr_user w)) eqn:EU; [|reflexivity]. destruct (is_nil (cr_pass w)) eqn:EP; [|reflexivity].
+          exfalso. destruct (cr_user w) eqn:EU'; [|discriminate EU]. destruct (cr_pass w) eqn:EP'; [|discriminate EP].
+          pose proof (cred_nil_colon w E1 EU' EP') as Ew.
+          pose proof (last_at_split _ _ _ Ela) as Esp.
+          assert (forallb (fun c => negb (is_ae c)) h = true) as Hh.
+          { rewrite Esp in Hnae. rewrite forallb_app in Hnae. apply andb_true_iff in Hnae. destruct Hnae as [_ Hn].
+            cbn [forallb] in Hn. apply andb_true_iff in Hn. tauto. }
+          unfold HR in Eae. rewrite (starts_ae_app h (a_rest T) Hh (a_rest_starts T)) in Eae.
+          destruct h; [|discriminate Eae]. rewrite Esp, Ew in Ha. discriminate Ha. }
+        rewrite Ene in C. exact C.
+      * rewrite andb_false_r in C. exact C.
+  - cbn [opt_is_some andb cred_of].
+    assert (match port_split (hs_rest false T) with
+            | Some PR => ((decimal_value (digits_of PR) <=? 65535) && starts_with_cp 92 (after_digits PR)) = false
+            | None => True end) as Hbs by (destruct (port_split (hs_rest false T)); [exact Hb | exact I]).
+    assert (forall P : Prop, (U32_MAX_P < nlen (auth_s0 sch ++ cred_text [] []) -> P) ->
+              oob P (parse_userinfo STNotSpecial (auth_s0 sch) l) (auth_s0 sch ++ cred_text [] [], nlen (auth_s0 sch) + nlen [], l)) as HPU.
+    { intros P HP. cbn [cred_text is_nil andb] in *. rewrite app_nil_r in *. rewrite nlen_nil, N.add_0_r. apply PU. exact HP. }
+    pose proof (model_auth_cont sch l [] [] l T Hu Hcan Hns HPU eq_refl Hu HA Hbs Hc) as C. cbv zeta in C.
+    cbn [cred_text is_nil andb negb] in C. exact C.
+Qed.
+
 End AuthClass.
